@@ -21,7 +21,7 @@ LEVEL_TEXT = (
     "any retention growing with >= 0.5 % of the fed octets crosses the bound. The bound is a generic object-graph measure and does not "
     "name attributes. Sampling of patterns and sizes, not proof."
 )
-RUNS = {"quick": 128, "thorough": 480}
+RUNS = {"quick": 204, "thorough": 816}
 CHUNK = {"quick": 2, "thorough": 2}
 BUDGET_S = {"quick": 120, "thorough": 3000}
 SELFTEST_RUNS = 12
@@ -37,10 +37,10 @@ ASSUMPTIONS = [
     "bound = 64 KiB + 2 x len(last chunk): 'a few maximum-size messages' (8 KiB P1 guard, 2047-octet frames, bytearray over-allocation) with margin; factor 2 covers the copy made when a buffer is re-sliced",
     "objects returned to the caller are not retained by the reader and are not counted",
 ]
-MUST_FIRE = {"quick": ["pattern_all_flags", "pattern_slash_no_lf", "pattern_ident_no_end", "pattern_never_ending_frame"], "thorough": ["pattern_all_flags", "pattern_slash_no_lf", "pattern_ident_no_end", "pattern_never_ending_frame"]}
+MUST_FIRE = {"quick": ["pattern_all_flags", "pattern_slash_no_lf", "pattern_ident_no_end", "pattern_never_ending_frame", "pattern_open_frame_then_flags", "pattern_open_frame_then_escapes", "pattern_flag_escape_alternating"], "thorough": ["pattern_all_flags", "pattern_slash_no_lf", "pattern_ident_no_end", "pattern_never_ending_frame"]}
 
 CONST = 64 * 1024
-HDLC_PATTERNS = ["all_flags", "flag_junk", "valid_frames", "never_ending_frame", "random", "random_ascii", "escape_flood"]
+HDLC_PATTERNS = ["all_flags", "flag_junk", "valid_frames", "never_ending_frame", "random", "random_ascii", "escape_flood", "flag_escape_alternating", "open_frame_then_flags", "open_frame_then_escapes", "open_frame_then_flag_escape"]
 P1_PATTERNS = ["ident_no_end", "slash_no_lf", "ident_endless_lines", "valid_readouts", "random", "random_ascii", "ident_lines_repeated"]
 CHUNKS = [1, 64, 1024, 65536]
 
@@ -77,6 +77,14 @@ def block(sc) -> bytes:
         return r.randbytes(8192).replace(b"\x7e", b"\x55")
     if p == "escape_flood":
         return (b"\x7d" * 7 + b"\x41") * 512
+    if p == "flag_escape_alternating":
+        return b"\x7e\x7d" * 2048
+    if p == "open_frame_then_flags":
+        return b"\x7e" * 4096
+    if p == "open_frame_then_escapes":
+        return b"\x7d" * 4096
+    if p == "open_frame_then_flag_escape":
+        return b"\x7d\x7e" * 2048
     if p == "random":
         return r.randbytes(16384)
     if p == "random_ascii":
@@ -97,6 +105,12 @@ def block(sc) -> bytes:
 def prefix(sc) -> bytes:
     if sc["pattern"] == "never_ending_frame":
         return b"\x7e"
+    if sc["pattern"] == "open_frame_then_flags":
+        # an opened frame that is already longer than its length field (8) says: no flag can complete it
+        return b"\x7e\xa0\x08\x03\x21\x13\x12\x34\x01\x02\x03\x04\x05"
+    if sc["pattern"].startswith("open_frame_then"):
+        # an opened frame whose header is complete and whose length field (0x7FF) is never reached
+        return b"\x7e\xa7\xff\x03\x21\x13\x12\x34\x01\x02"
     if sc["pattern"] == "ident_endless_lines":
         return b"/ABC5xyz\r\n"
     return b""
